@@ -333,6 +333,9 @@ BASE_SHAPES = [
     F([], rules=[R([]), R([S()]), R([])]),
     F([O([]), O([([], [])]), S(), O([([], []), ([], ["pass"])])]),
     F([]),
+    # scenarios that share keyword and name are different scenarios (identity, not equality, decides what is selected)
+    F([S(name="Login works"), S()], rules=[R([S(name="Login works"), S()]), R([S(name="Login works")])]),
+    F([S(name="Twin"), S(name="Twin"), O([([], ["pass", "pass"])], name="Twin")]),
 ]
 
 
